@@ -5,12 +5,16 @@ namespace ActixNet.Framed
 open ActixNet.Src
 
 /-- the codec law under which chunking is irrelevant: a decoded frame / error is unaffected by
-bytes that arrive later, and strictly consumes input -/
+bytes that arrive later, and strictly consumes input; at end of stream `decode_eof` first yields what
+`decode` yields -/
 structure Stable {F} (c : Codec F) : Prop where
   frame_ext : ∀ b f r e, c.decode b = .frame f r → c.decode (b ++ e) = .frame f (r ++ e)
   err_ext : ∀ b k r e, c.decode b = .err k r → c.decode (b ++ e) = .err k (r ++ e)
   frame_shrinks : ∀ b f r, c.decode b = .frame f r → r.length < b.length
   err_shrinks : ∀ b k r, c.decode b = .err k r → r.length < b.length
+  /-- `decode_eof` starts with `decode` (tokio-util's default, and `LinesCodec::decode_eof`) -/
+  eof_frame : ∀ b f r, c.decode b = .frame f r → c.decodeEof b = .frame f r
+  eof_err : ∀ b k r, c.decode b = .err k r → c.decodeEof b = .err k r
 
 /-! ## the reference `drainAll` -/
 
@@ -141,6 +145,37 @@ theorem whole_need {F} (c : Codec F) (b : Bytes) (k : Nat) (hd : c.decode b = .n
     whole c k b = eofDrain c k b := by
   unfold whole; rw [drainAll_need c b hd]; rfl
 
+/-- at end of stream it does not matter whether the frames still buffered are taken by `decode` or
+by `decode_eof` (the latter is what `Framed` does once the EOF flag is set) -/
+theorem eofDrain_le_whole {F} (c : Codec F) (hs : Stable c) (n : Nat) : ∀ (b : Bytes) (k : Nat),
+    b.length < n → eofDrain c k b <+: whole c k b := by
+  induction n with
+  | zero => intro b k h; omega
+  | succ n ih =>
+    intro b k hb
+    cases hd : c.decode b with
+    | need => rw [whole_need c b k hd]; exact List.prefix_refl _
+    | frame f r =>
+      have hw := whole_frame c hs b f r [] k hd
+      simp only [List.append_nil] at hw
+      rw [hw]
+      cases k with
+      | zero => simp [eofDrain]
+      | succ k =>
+        rw [eofDrain_succ, hs.eof_frame b f r hd]
+        have hsh := hs.frame_shrinks b f r hd
+        exact List.cons_prefix_cons.mpr ⟨rfl, (ih r k (by omega)).trans (whole_mono c k r)⟩
+    | err x r =>
+      have hw := whole_err c hs b x r [] k hd
+      simp only [List.append_nil] at hw
+      rw [hw]
+      cases k with
+      | zero => simp [eofDrain]
+      | succ k =>
+        rw [eofDrain_succ, hs.eof_err b x r hd]
+        have hsh := hs.err_shrinks b x r hd
+        exact List.cons_prefix_cons.mpr ⟨rfl, (ih r k (by omega)).trans (whole_mono c k r)⟩
+
 /-! ## one poll -/
 
 /-- the frame outputs still to come from state `s`, with `k` end-of-stream outputs -/
@@ -150,10 +185,12 @@ def expect {F} (c : Codec F) (k : Nat) (s : RState) : List (Out F) :=
 /-- the transport events (`Pending`, I/O errors) still to come from state `s` -/
 def evs {F} (s : RState) : List (Out F) := if s.eof then [] else eventsOf s.script
 
-/-- flag invariant of the read side; its first half is what makes the `debug_assert!(!EOF)` at
-framed.rs:215 unreachable -/
-def Good {F} (c : Codec F) (s : RState) : Prop :=
-  (s.eof = true → s.readable = true) ∧ (s.readable = false → c.decode s.buf = .need)
+/-- flag invariant of the read side: it is what makes the `debug_assert!(!EOF)` at framed.rs:215
+unreachable.  It does not mention the codec: it survives a codec swap (`into_map_codec`,
+`replace_codec`, `into_parts`/`from_parts`), and nothing else is needed for the per-poll
+specification below — in particular *not* "READABLE is clear only if the buffer holds no frame",
+which a swap can break (the old codec needed more data, the new one can decode what is buffered) -/
+def Good (s : RState) : Prop := s.eof = true → s.readable = true
 
 def measure (s : RState) : Nat := if s.eof then 0 else scriptSize s.script + 1
 
@@ -161,8 +198,8 @@ def measure (s : RState) : Nat := if s.eof then 0 else scriptSize s.script + 1
 def StepSpec {F} (c : Codec F) (s : RState) (o : Out F) (s' : RState) : Prop :=
   match o with
   | .spin => False
-  | .pending => (∀ k, expect c k s' = expect c k s) ∧ (evs s : List (Out F)) = .pending :: evs s'
-  | .ioErr e => (∀ k, expect c k s' = expect c k s) ∧ (evs s : List (Out F)) = .ioErr e :: evs s'
+  | .pending => (∀ k, expect c k s' <+: expect c k s) ∧ (evs s : List (Out F)) = .pending :: evs s'
+  | .ioErr e => (∀ k, expect c k s' <+: expect c k s) ∧ (evs s : List (Out F)) = .ioErr e :: evs s'
   | o => (∀ k, (o :: expect c k s') <+: expect c (k + 1) s) ∧ (evs s' : List (Out F)) = evs s
 
 theorem expect_mono {F} (c : Codec F) (k : Nat) (s : RState) : expect c k s <+: expect c (k + 1) s := by
@@ -171,12 +208,12 @@ theorem expect_mono {F} (c : Codec F) (k : Nat) (s : RState) : expect c k s <+: 
   · exact whole_mono c k _
 
 theorem StepSpec.congr {F} {c : Codec F} {s s2 s' : RState} {o : Out F}
-    (he : ∀ k, expect c k s = expect c k s2) (hv : (evs s : List (Out F)) = evs s2)
+    (he : ∀ k, expect c k s2 <+: expect c k s) (hv : (evs s : List (Out F)) = evs s2)
     (h : StepSpec c s2 o s') : StepSpec c s o s' := by
   cases o <;> simp only [StepSpec] at h ⊢ <;> (try exact h) <;>
     first
-    | exact ⟨fun k => by rw [he]; exact h.1 k, by rw [h.2, hv]⟩
-    | exact ⟨fun k => by rw [he]; exact h.1 k, by rw [hv]; exact h.2⟩
+    | exact ⟨fun k => (h.1 k).trans (he _), by rw [hv]; exact h.2⟩
+    | exact ⟨fun k => (h.1 k).trans (he _), by rw [← hv] at h; exact h.2⟩
 
 theorem lw_pos : 0 < framedLW := by decide
 theorem lw_le_hw : 2 * framedLW ≤ framedHW := by decide
@@ -200,26 +237,26 @@ def readThen {F} (c : Codec F) (fuel : Nat) (s1 : RState) : Out F × RState :=
   | .inr s2 => nextItem c fuel s2
 
 /-- the read half of one loop iteration, from a state that needs more data -/
-theorem readPart_spec {F} (c : Codec F) (fuel : Nat)
-    (ih : ∀ s, Good c s → measure s + 1 ≤ fuel →
-      Good c (nextItem c fuel s).2 ∧ StepSpec c s (nextItem c fuel s).1 (nextItem c fuel s).2)
-    (s1 : RState) (heof : s1.eof = false) (hneed : c.decode s1.buf = .need)
+theorem readPart_spec {F} (c : Codec F) (hs : Stable c) (fuel : Nat)
+    (ih : ∀ s, Good s → measure s + 1 ≤ fuel →
+      Good (nextItem c fuel s).2 ∧ StepSpec c s (nextItem c fuel s).1 (nextItem c fuel s).2)
+    (s1 : RState) (heof : s1.eof = false)
     (hm : measure s1 + 1 ≤ fuel + 1) :
-    Good c (readThen c fuel s1).2 ∧ StepSpec c s1 (readThen c fuel s1).1 (readThen c fuel s1).2 := by
+    Good (readThen c fuel s1).2 ∧ StepSpec c s1 (readThen c fuel s1).1 (readThen c fuel s1).2 := by
   have hroom := readRoom_ge s1.room
   have hlw := lw_pos
   have hm1 : scriptSize s1.script + 2 ≤ fuel + 1 := by simpa [measure, heof] using hm
   -- the state entered when the transport reports end of file
   have eofCase : ∀ (s2 : RState), s2.eof = true → s2.readable = true → s2.buf = s1.buf →
       streamOf s1.script = [] → (eventsOf s1.script : List (Out F)) = [] →
-      Good c (nextItem c fuel s2).2 ∧ StepSpec c s1 (nextItem c fuel s2).1 (nextItem c fuel s2).2 := by
+      Good (nextItem c fuel s2).2 ∧ StepSpec c s1 (nextItem c fuel s2).1 (nextItem c fuel s2).2 := by
     intro s2 he hr hb hst hev
-    have hg : Good c s2 := ⟨fun _ => hr, fun h => (by rw [hr] at h; cases h)⟩
+    have hg : Good s2 := fun _ => hr
     have hms : measure s2 + 1 ≤ fuel := by simp [measure, he]; omega
     obtain ⟨g, sp⟩ := ih s2 hg hms
     refine ⟨g, StepSpec.congr (s2 := s2) (fun k => ?_) ?_ sp⟩
     · simp only [expect, heof, he, hst, hb, List.append_nil, if_true, Bool.false_eq_true, if_false]
-      exact whole_need c s1.buf k hneed
+      exact eofDrain_le_whole c hs (s1.buf.length + 1) s1.buf k (by omega)
     · simp [evs, heof, he, hev]
   cases hsc : s1.script with
   | nil =>
@@ -232,11 +269,11 @@ theorem readPart_spec {F} (c : Codec F) (fuel : Nat)
       exact eofCase _ rfl rfl rfl (by simp [hsc, streamOf]) (by simp [hsc, eventsOf])
     | pending =>
       simp only [readThen, readPhase, hsc]
-      refine ⟨⟨fun h => by simp [heof] at h, fun _ => hneed⟩, ?_⟩
+      refine ⟨fun h => by simp [heof] at h, ?_⟩
       simp [StepSpec, expect, evs, heof, hsc, streamOf, eventsOf]
     | ioErr e =>
       simp only [readThen, readPhase, hsc]
-      refine ⟨⟨fun h => by simp [heof] at h, fun _ => hneed⟩, ?_⟩
+      refine ⟨fun h => by simp [heof] at h, ?_⟩
       simp [StepSpec, expect, evs, heof, hsc, streamOf, eventsOf]
     | data bs =>
       by_cases hbs : bs = []
@@ -254,11 +291,10 @@ theorem readPart_spec {F} (c : Codec F) (fuel : Nat)
         have key : ∀ (s2 : RState), s2.eof = false → s2.readable = true →
             s2.buf = s1.buf ++ bs.take cnt →
             s2.script = (if cnt < bs.length then Rd.data (bs.drop cnt) :: t else t) →
-            Good c (nextItem c fuel s2).2 ∧
+            Good (nextItem c fuel s2).2 ∧
               StepSpec c s1 (nextItem c fuel s2).1 (nextItem c fuel s2).2 := by
           intro s2 he hr hb hscr
-          have hg : Good c s2 :=
-            ⟨fun h => (by rw [he] at h; cases h), fun h => (by rw [hr] at h; cases h)⟩
+          have hg : Good s2 := fun h => (by rw [he] at h; cases h)
           have hst : s2.buf ++ streamOf s2.script = s1.buf ++ streamOf s1.script ∧
               (eventsOf s2.script : List (Out F)) = eventsOf s1.script ∧
               scriptSize s2.script < scriptSize s1.script := by
@@ -278,6 +314,7 @@ theorem readPart_spec {F} (c : Codec F) (fuel : Nat)
           obtain ⟨g, sp⟩ := ih s2 hg hms
           refine ⟨g, StepSpec.congr (s2 := s2) (fun k => ?_) ?_ sp⟩
           · simp only [expect, heof, he, Bool.false_eq_true, if_false, hst.1]
+            exact List.prefix_refl _
           · simp only [evs, heof, he, Bool.false_eq_true, if_false, hst.2.1]
         exact key _ rfl rfl rfl rfl
 
@@ -289,8 +326,8 @@ theorem nextItem_succ {F} (c : Codec F) (fuel : Nat) (s : RState) :
 /-- **one poll**, from any good state with enough fuel: the invariant is kept, the loop returns,
 and the outputs still to come change exactly by the output returned -/
 theorem nextItem_spec {F} (c : Codec F) (hs : Stable c) : ∀ (fuel : Nat) (s : RState),
-    Good c s → measure s + 1 ≤ fuel →
-    Good c (nextItem c fuel s).2 ∧ StepSpec c s (nextItem c fuel s).1 (nextItem c fuel s).2 := by
+    Good s → measure s + 1 ≤ fuel →
+    Good (nextItem c fuel s).2 ∧ StepSpec c s (nextItem c fuel s).1 (nextItem c fuel s).2 := by
   intro fuel
   induction fuel with
   | zero => intro s _ h; omega
@@ -302,9 +339,9 @@ theorem nextItem_spec {F} (c : Codec F) (hs : Stable c) : ∀ (fuel : Nat) (s : 
       have heof : s.eof = false := by
         cases he : s.eof with
         | false => rfl
-        | true => have := hg.1 he; rw [hr] at this; cases this
+        | true => have := hg he; rw [hr] at this; cases this
       simp only [decodePhase, hr, Bool.false_eq_true, if_false]
-      exact readPart_spec c fuel ih s heof (hg.2 hr) hm
+      exact readPart_spec c hs fuel ih s heof hm
     | true =>
       cases he : s.eof with
       | true =>
@@ -312,17 +349,17 @@ theorem nextItem_spec {F} (c : Codec F) (hs : Stable c) : ∀ (fuel : Nat) (s : 
         cases hd : c.decodeEof s.buf with
         | need =>
           dsimp only
-          refine ⟨⟨fun _ => rfl, fun h => (by simp at h)⟩, ?_⟩
+          refine ⟨fun _ => rfl, ?_⟩
           simp only [StepSpec, expect, evs, he, if_true, and_true]
           intro k; rw [eofDrain_succ, hd]; exact List.prefix_refl _
         | frame f r =>
           dsimp only
-          refine ⟨⟨fun _ => rfl, fun h => (by simp at h)⟩, ?_⟩
+          refine ⟨fun _ => rfl, ?_⟩
           simp only [StepSpec, expect, evs, he, if_true, and_true]
           intro k; rw [eofDrain_succ, hd]; exact List.prefix_refl _
         | err x r =>
           dsimp only
-          refine ⟨⟨fun _ => rfl, fun h => (by simp at h)⟩, ?_⟩
+          refine ⟨fun _ => rfl, ?_⟩
           simp only [StepSpec, expect, evs, he, if_true, and_true]
           intro k; rw [eofDrain_succ, hd]; exact List.prefix_refl _
       | false =>
@@ -331,19 +368,19 @@ theorem nextItem_spec {F} (c : Codec F) (hs : Stable c) : ∀ (fuel : Nat) (s : 
         | need =>
           dsimp only
           refine And.imp_right (fun sp => StepSpec.congr ?_ ?_ sp)
-            (readPart_spec c fuel ih _ rfl hd (by simpa [measure, he] using hm))
+            (readPart_spec c hs fuel ih _ rfl (by simpa [measure, he] using hm))
           · intro k; simp [expect, he]
           · simp [evs, he]
         | frame f r =>
           dsimp only
-          refine ⟨⟨fun h => (by simp at h), fun h => (by simp at h)⟩, ?_⟩
+          refine ⟨fun h => (by simp at h), ?_⟩
           simp only [StepSpec, expect, evs, he, Bool.false_eq_true, if_false, and_true]
           intro k
           rw [whole_frame c hs s.buf f r _ (k + 1) hd]
           exact List.cons_prefix_cons.mpr ⟨rfl, whole_mono c k _⟩
         | err x r =>
           dsimp only
-          refine ⟨⟨fun h => (by simp at h), fun h => (by simp at h)⟩, ?_⟩
+          refine ⟨fun h => (by simp at h), ?_⟩
           simp only [StepSpec, expect, evs, he, Bool.false_eq_true, if_false, and_true]
           intro k
           rw [whole_err c hs s.buf x r _ (k + 1) hd]
@@ -352,8 +389,8 @@ theorem nextItem_spec {F} (c : Codec F) (hs : Stable c) : ∀ (fuel : Nat) (s : 
 theorem measure_le (s : RState) : measure s + 1 ≤ scriptSize s.script + 3 := by
   unfold measure; split <;> omega
 
-theorem pollNext_spec {F} (c : Codec F) (hs : Stable c) (s : RState) (hg : Good c s) :
-    Good c (pollNext c s).2 ∧ StepSpec c s (pollNext c s).1 (pollNext c s).2 :=
+theorem pollNext_spec {F} (c : Codec F) (hs : Stable c) (s : RState) (hg : Good s) :
+    Good (pollNext c s).2 ∧ StepSpec c s (pollNext c s).1 (pollNext c s).2 :=
   nextItem_spec c hs _ s hg (measure_le s)
 
 theorem pollN_succ {F} (c : Codec F) (n : Nat) (s : RState) :
@@ -368,9 +405,9 @@ theorem pollN_length {F} (c : Codec F) : ∀ (n : Nat) (s : RState), (pollN c n 
 
 /-- **n polls**: the frame outputs are a prefix of what is expected from the state, the transport
 events are a prefix of the scripted ones, the loop never spins, the invariant is kept -/
-theorem pollN_spec {F} (c : Codec F) (hs : Stable c) : ∀ (n : Nat) (s : RState), Good c s →
+theorem pollN_spec {F} (c : Codec F) (hs : Stable c) : ∀ (n : Nat) (s : RState), Good s →
     frames (pollN c n s).1 <+: expect c n s ∧ events (pollN c n s).1 <+: evs s ∧
-    Out.spin ∉ (pollN c n s).1 ∧ Good c (pollN c n s).2 := by
+    Out.spin ∉ (pollN c n s).1 ∧ Good (pollN c n s).2 := by
   intro n
   induction n with
   | zero => intro s hg; simp [pollN, frames, events]; exact hg
@@ -388,14 +425,14 @@ theorem pollN_spec {F} (c : Codec F) (hs : Stable c) : ∀ (n : Nat) (s : RState
       simp only [StepSpec] at sp
       refine ⟨?_, ?_, by simp [n1], g2⟩
       · simp only [frames, List.filter_cons, Out.isFrame, Bool.false_eq_true, if_false]
-        rw [sp.1 n] at f1; exact f1.trans hmono
+        exact (f1.trans (sp.1 n)).trans hmono
       · simp only [events, List.filter_cons, Out.isFrame, Bool.not_false, if_true]
         rw [sp.2]; exact List.cons_prefix_cons.mpr ⟨rfl, e1⟩
     | ioErr x =>
       simp only [StepSpec] at sp
       refine ⟨?_, ?_, by simp [n1], g2⟩
       · simp only [frames, List.filter_cons, Out.isFrame, Bool.false_eq_true, if_false]
-        rw [sp.1 n] at f1; exact f1.trans hmono
+        exact (f1.trans (sp.1 n)).trans hmono
       · simp only [events, List.filter_cons, Out.isFrame, Bool.not_false, if_true]
         rw [sp.2]; exact List.cons_prefix_cons.mpr ⟨rfl, e1⟩
     | item f =>
@@ -426,8 +463,8 @@ theorem stable_decode_nil {F} (c : Codec F) (hs : Stable c) : c.decode [] = .nee
   | frame f r => have := hs.frame_shrinks [] f r hd; simp at this
   | err k r => have := hs.err_shrinks [] k r hd; simp at this
 
-theorem good_rinit {F} (c : Codec F) (hs : Stable c) (script : List Rd) : Good c (rinit script) :=
-  ⟨fun h => (by simp [rinit] at h), fun _ => stable_decode_nil c hs⟩
+theorem good_rinit (script : List Rd) : Good (rinit script) :=
+  fun h => (by simp [rinit] at h)
 
 theorem frames_events_length {F} (os : List (Out F)) :
     (frames os).length + (events os).length = os.length := by
@@ -485,6 +522,12 @@ theorem linesCodec_stable : Stable linesCodec where
   err_shrinks b k r h := by
     rw [linesCodec_decode_err] at h
     exact (Lines.decode_stable b r .err h.1 (by simp)).2
+  eof_frame b f r h := by
+    rw [linesCodec_decode_frame] at h
+    simp [linesCodec, Lines.decodeEof, h]
+  eof_err b k r h := by
+    rw [linesCodec_decode_err] at h
+    simp [linesCodec, Lines.decodeEof, h.1, h.2]
 
 theorem lenCodec_stable : Stable lenCodec where
   frame_ext b f r e h := by
@@ -540,6 +583,12 @@ theorem lenCodec_stable : Stable lenCodec where
         obtain ⟨_, rfl⟩ := h
         simp
       · split at h <;> simp at h
+  eof_frame b f r h := by
+    simp only [lenCodec] at h ⊢
+    simp [defaultEof, h]
+  eof_err b k r h := by
+    simp only [lenCodec] at h ⊢
+    simp [defaultEof, h]
 
 /-! ## `BytesCodec` (not stable by design): the items are a chunking of the stream -/
 
@@ -755,37 +804,45 @@ theorem goodB_rinit (script : List Rd) : GoodB (rinit script) :=
 
 /-! ## Write side -/
 
-/-- the write-side invariant: nothing lost, nothing duplicated, nothing reordered -/
-def Lossless (s : WState) : Prop := s.written ++ s.wbuf = s.accepted.flatten
+/-- the write-side invariant: nothing lost, nothing duplicated, nothing reordered — the bytes on the
+wire, then the bytes staged in the transport, then the bytes still in `write_buf` -/
+def Lossless (s : WState) : Prop := s.written ++ (s.staged ++ s.wbuf) = s.accepted.flatten
 
-/-- what `flush`/`ready`/`close` may do to a state: move a prefix of the buffer to the transport -/
+/-- what `flush`/`ready`/`close` may do to a state: move a prefix of the buffer to the transport, and
+staged bytes to the wire -/
 structure Moves (s s' : WState) : Prop where
-  same : s'.written ++ s'.wbuf = s.written ++ s.wbuf
+  same : s'.written ++ (s'.staged ++ s'.wbuf) = s.written ++ (s.staged ++ s.wbuf)
   acc : s'.accepted = s.accepted
   mono : s.written <+: s'.written
+  taken : (s.written ++ s.staged) <+: (s'.written ++ s'.staged)
 
-theorem Moves.refl (s : WState) : Moves s s := ⟨rfl, rfl, List.prefix_refl _⟩
+theorem Moves.refl (s : WState) : Moves s s := ⟨rfl, rfl, List.prefix_refl _, List.prefix_refl _⟩
 theorem Moves.trans {a b c : WState} (h1 : Moves a b) (h2 : Moves b c) : Moves a c :=
-  ⟨h2.same.trans h1.same, h2.acc.trans h1.acc, h1.mono.trans h2.mono⟩
+  ⟨h2.same.trans h1.same, h2.acc.trans h1.acc, h1.mono.trans h2.mono, h1.taken.trans h2.taken⟩
 
 theorem ioFlush_moves (s : WState) : Moves s (ioFlush s).2 ∧ (ioFlush s).1 ≠ .spin ∧
-    (ioFlush s).2.wbuf = s.wbuf := by
+    (ioFlush s).2.wbuf = s.wbuf ∧ ((ioFlush s).1 = .ok → (ioFlush s).2.staged = []) ∧
+    (ioFlush s).2.shut = s.shut ∧ (ioFlush s).2.nFlush = s.nFlush + 1 := by
   unfold ioFlush
-  split <;> exact ⟨⟨rfl, rfl, List.prefix_refl _⟩, by simp, rfl⟩
+  split <;> refine ⟨⟨?_, rfl, ?_, ?_⟩, by simp, rfl, by simp, rfl, rfl⟩ <;> simp
 
 theorem ioShutdown_moves (s : WState) : Moves s (ioShutdown s).2 ∧ (ioShutdown s).1 ≠ .spin ∧
-    (ioShutdown s).2.wbuf = s.wbuf ∧ ((ioShutdown s).1 = .ok → (ioShutdown s).2.shut = true) := by
+    (ioShutdown s).2.wbuf = s.wbuf ∧
+    ((ioShutdown s).1 = .ok → (ioShutdown s).2.shut = true ∧ (ioShutdown s).2.staged = []) ∧
+    (s.staged = [] → (ioShutdown s).2.staged = []) := by
   unfold ioShutdown
-  split <;> exact ⟨⟨rfl, rfl, List.prefix_refl _⟩, by simp, rfl, by simp⟩
+  split <;> refine ⟨⟨?_, rfl, ?_, ?_⟩, by simp, rfl, by simp, ?_⟩ <;> simp
 
 theorem wrote_moves (s : WState) (t : List Wr) (n : Nat) : Moves s (wrote s t n) := by
-  refine ⟨?_, rfl, ?_⟩
+  refine ⟨?_, rfl, ?_, ?_⟩
   · simp [wrote, List.append_assoc]
   · simp [wrote]
+  · simp [wrote, ← List.append_assoc]
 
 theorem wflushLoop_spec : ∀ (fuel : Nat) (s : WState),
     Moves s (wflushLoop fuel s).2 ∧
-    ((wflushLoop fuel s).1 = .ok → (wflushLoop fuel s).2.wbuf = []) ∧
+    ((wflushLoop fuel s).1 = .ok → (wflushLoop fuel s).2.wbuf = [] ∧ (wflushLoop fuel s).2.staged = [] ∧
+      (wflushLoop fuel s).2.nFlush = s.nFlush + 1) ∧
     (s.wscript.length + (if s.wbuf.isEmpty then 1 else 2) ≤ fuel → (wflushLoop fuel s).1 ≠ .spin) ∧
     (wflushLoop fuel s).2.shut = s.shut := by
   intro fuel
@@ -800,9 +857,8 @@ theorem wflushLoop_spec : ∀ (fuel : Nat) (s : WState),
     by_cases hb : s.wbuf.isEmpty = true
     · simp only [hb, if_true]
       have h := ioFlush_moves s
-      refine ⟨h.1, fun _ => ?_, fun _ => h.2.1, ?_⟩
-      · rw [h.2.2]; simpa using hb
-      · unfold ioFlush; split <;> rfl
+      refine ⟨h.1, fun hok => ⟨?_, h.2.2.2.1 hok, h.2.2.2.2.2⟩, fun _ => h.2.1, h.2.2.2.2.1⟩
+      rw [h.2.2.1]; simpa using hb
     · simp only [hb, Bool.false_eq_true, if_false]
       cases hsc : s.wscript with
       | nil =>
@@ -816,7 +872,7 @@ theorem wflushLoop_spec : ∀ (fuel : Nat) (s : WState),
         | accept k =>
           simp only
           split
-          · exact ⟨⟨rfl, rfl, List.prefix_refl _⟩, by simp, by simp, rfl⟩
+          · exact ⟨⟨rfl, rfl, List.prefix_refl _, List.prefix_refl _⟩, by simp, by simp, rfl⟩
           · obtain ⟨m, e, sp, sh⟩ := ih (wrote s t (min k s.wbuf.length))
             refine ⟨(wrote_moves s t _).trans m, e,
               fun hf => sp (by simp [wrote]; simp at hf; split <;> omega), ?_⟩
@@ -824,16 +880,18 @@ theorem wflushLoop_spec : ∀ (fuel : Nat) (s : WState),
         | zero =>
           simp only
           split
-          · exact ⟨⟨rfl, rfl, List.prefix_refl _⟩, by simp, by simp, rfl⟩
+          · exact ⟨⟨rfl, rfl, List.prefix_refl _, List.prefix_refl _⟩, by simp, by simp, rfl⟩
           · obtain ⟨m, e, sp, sh⟩ := ih (wrote s t 0)
             refine ⟨(wrote_moves s t _).trans m, e,
               fun hf => sp (by simp [wrote]; simp at hf; split <;> omega), ?_⟩
             rw [sh]; rfl
-        | pending => exact ⟨⟨rfl, rfl, List.prefix_refl _⟩, by simp, by simp, rfl⟩
-        | err k => exact ⟨⟨rfl, rfl, List.prefix_refl _⟩, by simp, by simp, rfl⟩
+        | pending => exact ⟨⟨rfl, rfl, List.prefix_refl _, List.prefix_refl _⟩, by simp, by simp, rfl⟩
+        | err k => exact ⟨⟨rfl, rfl, List.prefix_refl _, List.prefix_refl _⟩, by simp, by simp, rfl⟩
 
 theorem wflush_spec (s : WState) :
-    Moves s (wflush s).2 ∧ ((wflush s).1 = .ok → (wflush s).2.wbuf = []) ∧
+    Moves s (wflush s).2 ∧
+    ((wflush s).1 = .ok → (wflush s).2.wbuf = [] ∧ (wflush s).2.staged = [] ∧
+      (wflush s).2.nFlush = s.nFlush + 1) ∧
     (wflush s).1 ≠ .spin ∧ (wflush s).2.shut = s.shut := by
   have h := wflushLoop_spec (s.wscript.length + 2) s
   exact ⟨h.1, h.2.1, h.2.2.1 (by split <;> omega), h.2.2.2⟩
@@ -846,11 +904,11 @@ theorem wready_spec (s : WState) :
   · rename_i h; exact ⟨Moves.refl s, by simp, fun _ => h⟩
   · have h := wflush_spec s
     refine ⟨h.1, h.2.2.1, fun hok => ?_⟩
-    rw [h.2.1 hok]; decide
+    rw [(h.2.1 hok).1]; decide
 
 theorem wclose_spec (s : WState) :
     Moves s (wclose s).2 ∧ (wclose s).1 ≠ .spin ∧
-    ((wclose s).1 = .ok → (wclose s).2.wbuf = [] ∧ (wclose s).2.shut = true) := by
+    ((wclose s).1 = .ok → (wclose s).2.wbuf = [] ∧ (wclose s).2.staged = [] ∧ (wclose s).2.shut = true) := by
   unfold wclose
   have h := wflush_spec s
   generalize hf : wflush s = r at h
@@ -859,8 +917,8 @@ theorem wclose_spec (s : WState) :
   | ok =>
     simp only
     have hs := ioShutdown_moves s1
-    refine ⟨h.1.trans hs.1, hs.2.1, fun hok => ⟨?_, hs.2.2.2 hok⟩⟩
-    rw [hs.2.2.1]; exact h.2.1 rfl
+    refine ⟨h.1.trans hs.1, hs.2.1, fun hok => ⟨?_, (hs.2.2.2.1 hok).2, (hs.2.2.2.1 hok).1⟩⟩
+    rw [hs.2.2.1]; exact (h.2.1 rfl).1
   | pending => exact ⟨h.1, by simp, by simp⟩
   | err k => exact ⟨h.1, by simp, by simp⟩
   | spin => exact absurd rfl h.2.2.1
@@ -873,10 +931,16 @@ theorem wsend_lossless {I} (enc : Enc I) (item : I) (s : WState) (h : Lossless s
   · exact ⟨h, List.prefix_refl _, by simp⟩
   · refine ⟨?_, List.prefix_refl _, by simp⟩
     simp only [Lossless] at h ⊢
-    simp [← List.append_assoc, h]
+    simp [← List.append_assoc] at h ⊢
+    rw [h]
 
 theorem Moves.lossless {s s' : WState} (m : Moves s s') (h : Lossless s) : Lossless s' := by
   simp only [Lossless] at h ⊢; rw [m.same, m.acc]; exact h
+
+/-- a state with nothing buffered and nothing staged: every accepted byte is on the wire -/
+theorem Lossless.delivered {s : WState} (h : Lossless s) (hb : s.wbuf = []) (hs : s.staged = []) :
+    s.written = s.accepted.flatten := by
+  simpa [Lossless, hb, hs] using h
 
 theorem wstep_spec {I} (enc : Enc I) (s : WState) (op : WOp I) (h : Lossless s) :
     Lossless (wstep enc s op).2 ∧ s.written <+: (wstep enc s op).2.written ∧
